@@ -482,7 +482,16 @@ func (ka *kindAnalysis) guardedLocally(info *types.Info, fd *ast.FuncDecl, paren
 				return false
 			}
 		}
-		return sameAccessPath(info, gotRoot, wantRoot)
+		if sameAccessPath(info, gotRoot, wantRoot) {
+			return true
+		}
+		// `for k, v := range X`: v and X[k] hold the same pointers
+		rv := rangeVarsOf(info, fd)
+		if len(rv) == 0 {
+			return false
+		}
+		a, b := canonicalWithRanges(info, gotRoot, rv, 0), canonicalWithRanges(info, wantRoot, rv, 0)
+		return a != "" && a == b
 	}
 	samePath := func(p ast.Expr) bool { return samePathS(p, nil) }
 	match := func(fs []kindFact) bool {
@@ -1170,4 +1179,61 @@ func c04NilGuardedMembers(ctx *Ctx, r *Report, eng *effectsEngine) {
 		}
 	})
 	r.Count("selections through pointer members of the IR", total)
+}
+
+type rangeVar struct {
+	x   ast.Expr
+	key string
+}
+
+// rangeVarsOf: value variables of the range statements of fd that have a named key: v ↦ (X, k).
+func rangeVarsOf(info *types.Info, fd *ast.FuncDecl) map[types.Object]rangeVar {
+	out := map[types.Object]rangeVar{}
+	if fd == nil || fd.Body == nil {
+		return out
+	}
+	ast.Inspect(fd.Body, func(n ast.Node) bool {
+		rs, ok := n.(*ast.RangeStmt)
+		if !ok || rs.Tok != token.DEFINE {
+			return true
+		}
+		k, ok1 := rs.Key.(*ast.Ident)
+		v, ok2 := rs.Value.(*ast.Ident)
+		if ok1 && ok2 && k.Name != "_" && v.Name != "_" {
+			out[info.Defs[v]] = rangeVar{rs.X, k.Name}
+		}
+		return true
+	})
+	return out
+}
+
+// canonicalWithRanges prints an access path with range value variables replaced by the element they denote.
+func canonicalWithRanges(info *types.Info, e ast.Expr, rv map[types.Object]rangeVar, depth int) string {
+	if depth > 6 {
+		return ""
+	}
+	switch x := ast.Unparen(e).(type) {
+	case *ast.Ident:
+		if r, ok := rv[objOf(info, x)]; ok {
+			base := canonicalWithRanges(info, r.x, rv, depth+1)
+			if base == "" {
+				return ""
+			}
+			return base + "[" + r.key + "]"
+		}
+		return x.Name
+	case *ast.SelectorExpr:
+		base := canonicalWithRanges(info, x.X, rv, depth+1)
+		if base == "" {
+			return ""
+		}
+		return base + "." + x.Sel.Name
+	case *ast.IndexExpr:
+		base := canonicalWithRanges(info, x.X, rv, depth+1)
+		if base == "" {
+			return ""
+		}
+		return base + "[" + exprString(x.Index) + "]"
+	}
+	return ""
 }
